@@ -4,7 +4,7 @@ from .common import generic_replay
 
 
 def run(tier):
-    fams = {f: ("heat", {"HEAT", "FIN"}) for f in ("Rod1D", "RodNH", "Sandwich", "Hutchens1", "Rectangle", "Hutchens2")}
+    fams = {f: ("heat", {"HEAT", "FIN"}) for f in ("Rod1D", "RodNH", "Sandwich", "Hutchens1", "Rectangle", "Hutchens2", "CylSandwich")}
     return scans.scan_check("C14", ("HEAT.", "FIN"), {"HEAT"}, fams, tier)
 
 
